@@ -350,7 +350,7 @@ func genCast(rt *rapid.T, procs []int) cast {
 	c.AeadKey = rapid.Uint64().Draw(rt, "aeadKey")
 	n := rapid.IntRange(8, 32).Draw(rt, "workers")
 	var kinds []string
-	aeadVariants := 4
+	aeadVariants := 1 // how many different AEAD objects the aead workers of the cast are spread over (few, so that objects really are shared)
 	switch rapid.IntRange(0, 10).Draw(rt, "style") {
 	case 0, 1, 2:
 		kinds = []string{kEnc, kEnc, kEnc, kEnc, kEnc, kEnc, kEnc, kPool, kSym, kCron, kLog}
